@@ -89,7 +89,7 @@ def swapped_order(a):
 def incompatible(rng, dtype, text):
     """a dtype that the file must reject; returns (dtype, kind)"""
     descr = [tuple(d) for d in dtype.descr]
-    kinds = ["names", "count-more", "count-less", "type", "shape"] + ([] if text else ["byteorder"])
+    kinds = ["names", "count-more", "count-less", "type", "shape", "reshape"] + ([] if text else ["byteorder"])
     rng.shuffle(kinds)
     for k in kinds:
         d2 = list(descr)
@@ -124,6 +124,17 @@ def incompatible(rng, dtype, text):
                 d2[i] = (d2[i][0], d2[i][1], shp[:-1] + (shp[-1] + 1,))
             else:
                 d2[i] = (d2[i][0], d2[i][1], (2,))
+        elif k == "reshape":
+            # the same number of elements in another arrangement: (2,3) as (6,) or (3,2), (n,) as (1,n), a scalar as (1,)
+            arr_fields = [j for j, d in enumerate(d2) if len(d) == 3]
+            if arr_fields and rng.random() < .8:
+                i = arr_fields[int(rng.integers(0, len(arr_fields)))]
+            if len(d2[i]) == 3:
+                shp = d2[i][2] if isinstance(d2[i][2], tuple) else (d2[i][2],)
+                cands = [c for c in ((int(np.prod(shp)),), tuple(shp[::-1]), (1,) + tuple(shp)) if c != tuple(shp)]
+                d2[i] = (d2[i][0], d2[i][1], cands[int(rng.integers(0, len(cands)))])
+            else:
+                d2[i] = (d2[i][0], d2[i][1], (1,))
         elif k == "byteorder":
             cand = [j for j, d in enumerate(d2) if d[1][0] in "<>"]
             if not cand:
